@@ -15,7 +15,8 @@ RULE = (
     "Generated elections run through the client with features=[] and fixed_effects={} (nonparametric and gaussian; "
     "estimands from turnout/dem/gop; integer baselines; residual patterns with exact ties, one dominant unit, all-equal "
     "residuals, swings near -40%; nonreporting units with partial counts above and below the swing prediction; "
-    "outlier models on/off). Oracle: R = modelled reporting rows of the returned unit table; m = weighted median of "
+    "outlier models on/off; in a quarter of the cases the config's baseline_pointer sends dem/gop to another column while "
+    "a decoy column named after the estimand is present). Oracle: R = modelled reporting rows of the returned unit table; m = weighted median of "
     "(counted - (baseline+1))/(baseline+1) with weights baseline+1 in exact rational arithmetic; every nonreporting "
     "unit's prediction == round_half_even(max((baseline+1)(1+m), partial count)) (differing by 1 allowed only when the "
     "un-rounded reference is within 1e-6 of a half integer). Cases whose median is not unique with margin 1e-5 of the "
@@ -74,6 +75,10 @@ def _strategy(draw):
             u.update(bd=6, bg=4, bo=0)
             u["feed"].update(rd=5, rg=3, ro=0)
     case["pattern"] = pattern
+    # the baseline of dem / gop may live in a column the config points to (baseline_pointer), next to a decoy column
+    # named after the estimand itself
+    if draw(st.integers(0, 3)) == 0:
+        case["ptr_alias"] = [e for e in ("dem", "gop") if draw(st.booleans())] or ["dem"]
     return case
 
 
@@ -93,6 +98,8 @@ def check_case(case, ctx):
     if cats is None:
         return
     ctx.label("pattern:" + case.get("pattern", "?"))
+    if any(e in case.get("ptr_alias", []) for e in req["estimands"]):
+        ctx.label("baseline_through_config_pointer")
     fit_ids = [uid for uid, c, rep in zip(ut["geographic_unit_fips"], cats, ut["reporting"]) if c == "expected" and int(rep) == 1]
     non_ids = [uid for uid, c, rep in zip(ut["geographic_unit_fips"], cats, ut["reporting"]) if c == "expected" and int(rep) == 0]
     if not fit_ids or not non_ids:
